@@ -978,6 +978,19 @@ func runEngine(b block) {
 							}
 						}
 						truthful = strconv.FormatBool(can)
+						if !can {
+							// only for a single stop is the search above exhaustive; for a unit of several stops or a group the
+							// best moves tried here are drawn with other tie-breaks than the check's own: no verdict
+							single := false
+							if su, isStops := unit.(nextroute.SolutionPlanStopsUnit); isStops && len(su.SolutionStops()) == 1 {
+								if _, member := ms.PlanStopsUnit().PlanUnitsUnit(); !member {
+									single = true
+								}
+							}
+							if !single {
+								truthful = "n/a"
+							}
+						}
 					}
 					fmt.Fprintf(out, "%s %d Q check unit %s plannable %v failed %v truthful %s\n", b.id, step,
 						strings.Join(pu.Stops, ","), pu.HasPlannableBestMove, pu.BestMoveFailed, truthful)
